@@ -27,6 +27,16 @@ type extra struct {
 	Solver    string
 	InitStubs map[string]int
 	Workers   int
+	Conf      Conformance
+}
+
+// Conformance: passing paths of the engine replayed natively on the same inputs.
+type Conformance struct {
+	Witnesses   int      `json:"witness_paths_replayed_natively"`
+	Agree       int      `json:"agree"`
+	Differ      int      `json:"differ"`
+	Differences []string `json:"differences,omitempty"`
+	Seconds     float64  `json:"seconds"`
 }
 
 // crossCheck re-runs exported obligation queries on the other back ends.
@@ -226,6 +236,7 @@ func writeEvidence(verif, prop, tier string, seed int, results []*interp.Harness
 		cov["cross_check"] = ex.XC
 		cov["load_seconds"] = ex.LoadS
 		cov["workers"] = ex.Workers
+		cov["engine_vs_native_conformance"] = ex.Conf
 		var stubs []string
 		for k := range ex.InitStubs {
 			stubs = append(stubs, k)
